@@ -54,7 +54,7 @@ static int32 vgrefs[MAXV]; static int nvg;
 static int unhex(const char *s, unsigned char *out)
 {
     int n = 0;
-    if (s[0] == '-' || s[0] == 'e') return 0;
+    if ((s[0] == '-' || s[0] == 'e') && s[1] == 0) return 0;
     while (s[0] && s[1]) { unsigned v; sscanf(s, "%2x", &v); out[n++] = (unsigned char)v; s += 2; }
     return n;
 }
@@ -68,7 +68,7 @@ static void pstr(const char *s) { phex((const unsigned char *)s, (long)strlen(s)
 /* string argument: hex -> malloc'ed C string, "-" -> NULL, "e" -> "" */
 static char *sarg(const char *t)
 {
-    if (t[0] == '-') return NULL;
+    if (t[0] == '-' && t[1] == 0) return NULL;
     char *p = calloc(strlen(t) / 2 + 2, 1);
     unhex(t, (unsigned char *)p);
     return p;
@@ -170,6 +170,7 @@ static int vg_one_attr(int32 vg, int idx, int withfind)
 /* ---- function-level correspondence: SDIputattr / NC_findattr on a bare attribute list ------------------- */
 extern int       SDIputattr(NC_array **ap, const char *name, int32 nt, int count, const void *data);
 extern NC_attr **NC_findattr(NC_array **ap, const char *name);
+extern NC       *SDIhandle_from_id(int32 id, int typ);
 static NC_array *unit_list;
 static void unit_dump(void)
 {
@@ -186,7 +187,7 @@ static void unit_dump(void)
 #define OKLN(...) do { printf("%ld ok", ln); printf(__VA_ARGS__); printf("\n"); } while (0)
 #define FAILLN() printf("%ld fail\n", ln)
 
-static unsigned char dbuf[200000];
+static unsigned char dbuf[700000];
 static char *tok[16];
 
 static void run_history(const char *dir, char **lines, long *lnos, long n)
@@ -210,6 +211,25 @@ static void run_history(const char *dir, char **lines, long *lnos, long n)
             if (sd == FAIL) FAILLN(); else OKLN("");
         }
         else if (!strcmp(op, "sd.end")) {
+            if (getenv("DRIVE_ATTR_PROBE") && sd_mode != 'r') {
+                /* diagnostics for the known-findings signature: will hdf_write_dim give an unnamed ("fakeDim<n>")
+                 * dimension another number than the one it has in memory?  (duplicates by name+size are written once) */
+                NC *h = SDIhandle_from_id(sd, CDFTYPE);
+                if (h && h->dims && (h->flags & NC_HDIRTY)) {
+                    NC_dim **dp = (NC_dim **)h->dims->values;
+                    int cnt = 0;
+                    for (unsigned i = 0; i < h->dims->count; i++) {
+                        int dup = 0;
+                        for (unsigned j = 0; j < i; j++)
+                            if (dp[j]->size == dp[i]->size && dp[j]->name->len == dp[i]->name->len &&
+                                !strncmp(dp[j]->name->values, dp[i]->name->values, dp[i]->name->len)) dup = 1;
+                        if (dup) continue;
+                        if (!strncmp(dp[i]->name->values, "fakeDim", 7) && atoi(dp[i]->name->values + 7) != cnt)
+                            printf("%ld probe renumber %s -> fakeDim%d\n", ln, dp[i]->name->values, cnt);
+                        cnt++;
+                    }
+                }
+            }
             int r = SDend(sd); sd = FAIL;
             if (r == FAIL) FAILLN(); else OKLN("");
         }
@@ -612,7 +632,7 @@ int main(int argc, char **argv)
     const char *dir = argv[1];
     FILE *f = fopen(argv[2], "r");
     if (!f) return 2;
-    static char buf[400000];
+    static char buf[1400000];
     char **lines = NULL; long *lnos = NULL; long n = 0, cap = 0, ln = 0;
     while (fgets(buf, sizeof buf, f)) {
         ln++;
